@@ -263,6 +263,73 @@ def correspond(ctx):
     dist["several signatures of one algorithm: verifications"] = len(vreq)
     st["evaluations"] += len(vreq)
 
+    # ---- C3: the streaming producer (jose_jws_sig_io) fed the payload text in arbitrary chunks makes the same token as
+    #          the one-shot call (HMAC: bit for bit; ECDSA/RSA: the product verifies and carries the same header)
+    sreq2, sone, smeta = [], [], []
+    nstream = 60 if ctx["tier"] == "quick" else 600
+    skeys = [("HS256", G.oct_key(rnd, 32)), ("HS384", G.oct_key(rnd, 48)), ("HS512", G.oct_key(rnd, 64))]
+    for a, kn in G.SIGN_KEY_FOR.items():
+        if kn in ks0 and a in ("ES256", "ES384", "ES512", "RS256", "PS256"):
+            skeys.append((a, ks0[kn]))
+    for i in range(nstream):
+        a, k = skeys[i % len(skeys)]
+        n = rnd.choice([0, 1, 2, 3, 5, 16, 63, 64, 65, 100, 255, 256, 1000, rnd.randrange(0, 3000)])
+        pay = bytes(rnd.getrandbits(8) for _ in range(n))
+        tl = len(G.b64(pay))
+        mode = rnd.randrange(5)
+        if mode == 0 or tl == 0:
+            chunks = "-"
+        elif mode == 1:
+            chunks = ",".join(["1"] * min(tl, 200))
+        elif mode == 2:
+            chunks = ",".join(str(x) for x in [0, tl // 2, 0])
+        else:
+            cuts = sorted(rnd.randrange(0, tl + 1) for _ in range(rnd.randrange(1, 6)))
+            sizes, prev = [], 0
+            for c_ in cuts:
+                sizes.append(c_ - prev)
+                prev = c_
+            chunks = ",".join(str(x) for x in sizes)
+        where = rnd.choice(["protected", "protected", "header", "key"])
+        if where == "key":
+            k = dict(k, alg=a)
+            tmpl = "-"
+        elif where == "header" :
+            tmpl = G.dumps({"header": {"alg": a}})
+        else:
+            tmpl = G.dumps({"protected": {"alg": a, "n": i}})
+        start = rnd.choice([{}, {}, {"signatures": []}])
+        sreq2.append("jwssigio\t%s\t%s\t%s\t%s\t%s" % (G.dumps(start), tmpl, G.dumps(k), chunks, pay.hex()))
+        sone.append("jwssig\t%s\t%s\t%s" % (G.dumps(dict(start, payload=G.b64(pay))), tmpl, G.dumps(k)))
+        smeta.append((a, k, chunks, n))
+    so, oo = G.harness(bdir, sreq2), G.harness(bdir, sone)
+    vq, vqm = [], []
+    for c, c1, o, o1, (a, k, chunks, n) in zip(sreq2, sone, so, oo, smeta):
+        if o.startswith("CRASH"):
+            rep.violation("crash:" + o[:80], "crash or sanitizer report in the streaming signer: " + o, {"case": c[:3000]})
+            continue
+        if (o == "ERR") != (o1 == "ERR"):
+            rep.violation("stream-sign:verdict-differs-from-one-shot:" + a[:2], "jose_jws_sig_io %s where jose_jws_sig %s for the same request (payload of %d octets fed as %s)"
+                          % ("fails" if o == "ERR" else "succeeds", "fails" if o1 == "ERR" else "succeeds", n, chunks[:40]), {"case": c[:3000], "one_shot": c1[:3000], "streaming": o[:600], "one_shot_result": o1[:600]})
+            continue
+        if o == "ERR":
+            continue
+        if a.startswith("HS"):
+            if o != o1:
+                rep.violation("stream-sign:product-differs-from-one-shot", "jose_jws_sig_io fed the payload as %s gives a different HMAC token than jose_jws_sig" % chunks[:40],
+                              {"case": c[:3000], "streaming": o[:800], "one_shot": o1[:800]})
+        else:
+            t, t1 = json.loads(o), json.loads(o1)
+            if {x: t.get(x) for x in ("payload", "protected", "header")} != {x: t1.get(x) for x in ("payload", "protected", "header")}:
+                rep.violation("stream-sign:product-differs-from-one-shot", "jose_jws_sig_io's token differs from jose_jws_sig's outside the signature value", {"case": c[:3000], "streaming": o[:800], "one_shot": o1[:800]})
+            vq.append("jwsver\t%s\t-\t%s\t0" % (o, G.dumps(G.pub_of(k))))
+            vqm.append(c)
+    for c, v, o in zip(vqm, vq, G.harness(bdir, vq)):
+        if o != "T":
+            rep.violation("stream-sign:product-does-not-verify", "a token made by jose_jws_sig_io does not verify under the signer's public key: " + o[:60], {"case": c[:3000], "verify": v[:3000]})
+    dist["streaming signer vs one-shot (chunked payload text)"] = len(sreq2)
+    st["evaluations"] += 2 * len(sreq2) + len(vq)
+
     # ---- D0: many ECDSA products: r and s always at the curve's full width (a leading zero octet occurs in about one
     #          signature out of 128) and valid under an independent python verifier
     import pyec
